@@ -223,6 +223,18 @@ pub fn measure_pulse(spectrum: &[f64], stage: usize, use_log_gain: bool, rate: u
     }
 }
 
+/// A vocoder of the same shape that is used for one noisy frame and dropped while its filter is
+/// still ringing: whatever the library keeps across vocoder objects (pools, thread-locals) now holds
+/// the state of a filter that was NOT at rest.
+pub fn hot_decoy(spectrum: &[f64], stage: usize, use_log_gain: bool, rate: usize, alpha: f64, beta: f64) {
+    let fperiod = 96;
+    let mut v = Vocoder::new(spectrum.len(), 0, stage, use_log_gain, rate, alpha, beta, 1.0, fperiod);
+    let mut buf = vec![0.0; fperiod];
+    v.synthesize(-1e10, spectrum, &[], &mut buf);
+    v.synthesize(200f64.ln(), spectrum, &[], &mut buf);
+    drop(v);
+}
+
 /// Unit-pulse response of the LAST of `n_stationary` (>= 2) frames of `spectrum` that follow the
 /// frames `prior` (other spectra) on one vocoder, everything voiced at 20 Hz with the long frame of
 /// `measure_pulse`. The pulse positions are obtained by simulating the documented pitch counter.
